@@ -31,6 +31,53 @@ def _matches_known(finding, known):
     return None
 
 
+def unit_report(uname, tier):
+    """Run one correspondence unit (fingerprint-escalated) and return its report; never raises."""
+    try:
+        unit = load_unit(uname)
+        changed = core.changed_functions(unit.mirrors)
+        rep = core.run_unit(unit, tier, escalate=bool(changed))
+        rep['fingerprint_changed'] = ['%s::%s' % c for c in changed]
+    except Exception:  # harness crash = the correspondence no longer checks
+        rep = {'unit': uname, 'cases': 0, 'distinct_nontrivial': 0, 'mismatches': 0,
+               'errors': ['harness exception: %s' % traceback.format_exc()[-1500:]], 'bad_cases': [], 'samples': [],
+               'fingerprint_changed': []}
+    return rep
+
+
+def run_units_parallel(unames, tier, width=4):
+    """Each unit in its own interpreter (lib.unit_worker), at most `width` at a time, sharing the cores."""
+    import subprocess
+    if len(unames) <= 1:
+        return {u: unit_report(u, tier) for u in unames}
+    env = dict(os.environ)
+    env['VERIF_NCPU'] = str(max(2, core.NCPU // min(width, len(unames))))
+    pending = list(unames)
+    running = []
+    out = {}
+    while pending or running:
+        while pending and len(running) < width:
+            u = pending.pop(0)
+            pr = subprocess.Popen([sys.executable, '-m', 'lib.unit_worker', u, tier], cwd=core.VERIF, env=env,
+                                  stdout=subprocess.PIPE, stderr=subprocess.PIPE, text=True)
+            running.append((u, pr))
+        still = []
+        for u, pr in running:
+            if pr.poll() is None:
+                still.append((u, pr))
+                continue
+            so, se = pr.communicate()
+            try:
+                out[u] = json.loads(so[so.index('@@REPORT@@') + 10:])
+            except Exception:
+                out[u] = {'unit': u, 'cases': 0, 'distinct_nontrivial': 0, 'mismatches': 0, 'bad_cases': [], 'samples': [],
+                          'errors': ['unit worker failed (rc=%s): %s' % (pr.returncode, (se or so)[-1200:])], 'fingerprint_changed': []}
+        running = still
+        if running:
+            time.sleep(0.2)
+    return out
+
+
 def run_check(pid, tier):
     t0 = time.time()
     prop = load_prop(pid)
@@ -113,15 +160,10 @@ def run_check(pid, tier):
     unit_reports = []
     total_cases = 0
     total_nontrivial = 0
-    for uname in getattr(prop, 'UNITS', []):
-        unit = load_unit(uname)
-        changed = core.changed_functions(unit.mirrors)
-        try:
-            rep = core.run_unit(unit, tier, escalate=bool(changed))
-        except Exception as e:  # harness crash = the correspondence no longer checks
-            rep = {'unit': uname, 'cases': 0, 'distinct_nontrivial': 0, 'mismatches': 0,
-                   'errors': ['harness exception: %s' % traceback.format_exc()[-1500:]], 'bad_cases': [], 'samples': []}
-        rep['fingerprint_changed'] = ['%s::%s' % c for c in changed]
+    unames = list(getattr(prop, 'UNITS', []))
+    reports = run_units_parallel(unames, tier)
+    for uname in unames:
+        rep = reports[uname]
         unit_reports.append(rep)
         obligations += 1
         total_cases += rep['cases']
